@@ -84,7 +84,13 @@ func cmdIter(args []string) {
 	gen(nil)
 	poisoned := false
 	for n := 0; n <= *maxn && !poisoned; n++ {
-		for mode := 0; mode < 2 && !poisoned; mode++ {
+		// mode 0: memory; 1: file-backed, cached; 2: file-backed, re-opened
+		// before every word (nothing cached) with the K-th ReadAt failing, so
+		// that the visit behind the iterator ends with an I/O error
+		for mode := 0; mode < 3 && !poisoned; mode++ {
+			if mode == 2 && n == 0 {
+				continue
+			}
 			var store *gkvlite.Store
 			var mf *memfile.File
 			if mode == 0 {
@@ -97,11 +103,22 @@ func cmdIter(args []string) {
 			for _, p := range rng.Perm(n) {
 				c.SetItem(&gkvlite.Item{Key: key(p + 1), Val: []byte{1}, Priority: rng.Int31()})
 			}
-			if mode == 1 {
+			if mode >= 1 {
 				store.Flush()
 			}
 			for wi, word := range words {
 				asc := (wi+n)%2 == 0
+				var ft *memfile.Fault
+				if mode == 2 {
+					store.Close()
+					var err error
+					if store, err = gkvlite.NewStore(mf); err != nil {
+						fatalf("reopen: %v", err)
+					}
+					c = store.GetCollection("x")
+					ft = &memfile.Fault{Kind: memfile.Read, K: 1 + (wi/2)%(2*n+2)}
+					mf.Arm(ft)
+				}
 				base := runtime.NumGoroutine()
 				r0 := gkvlite.VerifPeek(c).Refs
 				mu.Lock()
@@ -110,6 +127,7 @@ func cmdIter(args []string) {
 				res := []int{}
 				full := append(append([]string{}, word...), "C")
 				done := make(chan string, 1)
+				itErr := false
 				go func() {
 					defer func() {
 						if r := recover(); r != nil {
@@ -135,6 +153,7 @@ func cmdIter(args []string) {
 							it.Close()
 						}
 					}
+					itErr = it.Err() != nil
 				}()
 				ev := Ev{"e": "Word", "n": n, "dir": map[bool]string{true: "asc", false: "desc"}[asc], "word": full,
 					"panic": false, "hang": false, "exited": false, "refs0": r0, "refs1": -1, "goroutines": 0, "mode": mode}
@@ -150,6 +169,11 @@ func cmdIter(args []string) {
 					poisoned = true
 				}
 				ev["res"] = res
+				ev["err"] = itErr
+				if ft != nil {
+					mf.Arm(nil)
+				}
+				ev["faulted"] = ft != nil && ft.Hit
 				if !poisoned {
 					ev["exited"] = waitExit(e0 + 1)
 					ev["refs1"] = gkvlite.VerifPeek(c).Refs
